@@ -31,6 +31,9 @@ def run(ctx):
         "expression attributes of the drivers are character-set / alternative expressions evaluated by TLC itself; one free-form expression is "
         "opaque (verdict of booster::regex logged); URI syntax beyond the scheme is not part of the judgement",
         "encodings driven: none, UTF-8, ISO-8859-1, windows-1252 (the non-ASCII-compatible path through iconv is not driven)",
+        "entity sweep: every '&' w ';' with w = '#' v, |v| <= 4 (quick) / 5 (thorough), and w without '#', over & # x X 0 1 9 a f A F g ; + - "
+        "SP TAB . _ and 0xE9, in text position and inside an attribute value, numeric entities on / off, XHTML / HTML; the entity grammar "
+        "is EntityEnd / NumericRefOK of XssTok.tla (white-listed name | '&#' DIGIT+ ';' | '&#x' HEXDIGIT+ ';', code point not a control)",
         "charset sweep: every name of the validator table of src/encoding.cpp in several spellings plus charsets validated by conversion "
         "(windows-1254, -874, cp866/437/850, KOI8-T, macintosh, TIS-620, Shift_JIS, cp932, EUC-JP, GBK, GB2312, EUC-KR, Big5) x every byte "
         "(multi-byte: lead >= 0x80 x second byte, sampled in quick); the expected well-formedness bit comes from iconv(3) of the C library, "
@@ -82,6 +85,11 @@ def run(ctx):
         job("chars2", ["frag", "chars2", 3, 0, 1, erid(3, 1, 1, 1, 1, 1), erid(3, 1, 0, 1, 1, 3)], 1)
         job("lf", ["frag", "lf", 4, 0, 1, erid(3, 3, 1), erid(3, 3, 0, js=1)], 1)
         job("ctl", ["frag", "ctl", 3, 0, 1, erid(3, 1, 1, enc=1), erid(3, 1, 0, enc=2), erid(3, 1, 0, enc=3, js=1)], 1)
+        # "&" w ";" sweep: text position, numeric entities on (XHTML, HTML) and off; inside an attribute value
+        job("entx", ["ent", 4, 0, 0, 1, erid(3, 3, 1)], 2)
+        job("enth", ["ent", 4, 0, 0, 1, erid(3, 3, 0, js=1)], 2)
+        job("ento", ["ent", 3, 0, 0, 1, erid(3, 3, 1, nu=0), erid(3, 3, 0, nu=0)], 1)
+        job("enta", ["ent", 3, 1, 0, 1, erid(3, 3, 1), erid(3, 3, 0)], 1)
         job("enc", ["enc", 13, 0, 0, 1], 2)
         job("rnd", ["rnd", 900, 200, 0, 1] + fam, 3)
     else:
@@ -95,6 +103,10 @@ def run(ctx):
         job("chars2", ["frag", "chars2", 4, 0, 1, erid(3, 1, 1, 1, 1, 1), erid(3, 1, 0, 1, 1, 3), erid(3, 1, 0, 1, 1, 2)], 2)
         job("lf", ["frag", "lf", 5, 0, 1, erid(3, 3, 1), erid(3, 3, 0, js=1), erid(3, 3, 0)], 3)
         job("ctl", ["frag", "ctl", 4, 0, 1, erid(3, 1, 1, enc=1), erid(3, 1, 0, enc=2), erid(3, 1, 0, enc=3, js=1), erid(3, 1, 1, enc=3)], 2)
+        job("entx", ["ent", 5, 0, 0, 1, erid(3, 3, 1)], 16)
+        job("enth", ["ent", 4, 0, 0, 1, erid(3, 3, 0, js=1), erid(3, 3, 0)], 2)
+        job("ento", ["ent", 4, 0, 0, 1, erid(3, 3, 1, nu=0), erid(3, 3, 0, nu=0)], 2)
+        job("enta", ["ent", 4, 1, 0, 1, erid(3, 3, 1), erid(3, 3, 0)], 2)
         job("enc", ["enc", 1, 1, 0, 1], 6)
         job("rnd", ["rnd", 3000, 400, 0, 1] + fam, 12)
         job("rndL", ["rnd", 60, 1500, 0, 1] + fam[:12], 2)
@@ -115,7 +127,7 @@ def run(ctx):
         for x in rej:
             report(ctx, shard, x)
     # drift: the mechanism model's own prediction (never a violation)
-    dtr = [t for t in traces if any(k in os.path.basename(t) for k in (("tok", "rnd", "lf", "ctl", "enc") if q else ("tok", "rnd", "attr", "lf", "ctl", "enc")))]
+    dtr = [t for t in traces if any(k in os.path.basename(t) for k in (("tok", "rnd", "lf", "ctl", "enc", "ento", "enta", "entx-0") if q else ("tok", "rnd", "attr", "lf", "ctl", "enc", "enth", "ento", "enta")))]
     dres = shard.parallel_print_pass(ctx, "Xss/XssTokTrace.tla", "XssTokDrift.cfg", dtr, "DRIFT", threads=NT)
     nd = 0
     for t, rows in dres.items():
